@@ -17,6 +17,7 @@ DOC = {
         'C15.R1': 'every io::Result produced on the group path is PROPAGATED / RETURNED / LOGGED / ERR-RETURNED; closures receiving an io::Result do not discard it silently; named exceptions only',
         'C15.R2': 'hash_file_or_log_err / hash_transformed_or_log_err / file_info_or_log_err: Err -> log (except NotFound) -> None; Ok -> Some',
         'C15.R3': 'no unwrap()/expect() on an io::Result in any body reachable from group_files (named exceptions)',
+        'C15.R5': 'the only NotFound that is passed over silently is a vanished input: the start-up probe of the transform launches exactly the program that Transform::run launches (the first word of the command as given, not its base name looked up on $PATH), so a program that cannot be started is reported once at start-up and not mistaken for files that disappeared',
         'C15.R4': 'update_file_locations: a failed extent lookup is logged (except ENOENT) and the loop continues',
     },
     'not_decided': 'short reads of a file that shrinks under the scan; errors injected at arbitrary syscalls (a fault-injection harness would be needed)',
@@ -74,6 +75,7 @@ def run(ctx):
     r2_stages(ctx, lib)
     r3(ctx, lib, cg)
     r4(ctx, lib, cg)
+    r5(ctx, lib)
     from .common import run_mandatory
     run_mandatory(ctx, 'C15')
     if ctx.tier == 'thorough' and not getattr(ctx, 'sibling', None):
@@ -277,3 +279,35 @@ def r4(ctx, lib, cg):
         ctx.check(logs and not aborts, rule, cp, cs[0].where(), 'a failed extent lookup is reported and processing continues', 'extent lookup failure: logs=%s aborts=%s' % (logs, aborts))
     if not found:
         ctx.missing(rule, 'fetch_physical_location call in update_file_locations')
+
+
+def r5(ctx, lib):
+    rule = 'C15.R5'
+    from ..analysis import backslice
+    tn = ctx.need_body(rule, 'transform::Transform::new')
+    bc = ctx.need_body(rule, 'transform::build_command')
+    if tn is None or bc is None:
+        return
+    probe = tn.calls(r'^std::process::Command::new$')
+    run = bc.calls(r'^std::process::Command::new$')
+    if not ctx.floor(rule, 'Command::new in Transform::new (probe) and build_command (run)', min(len(probe), len(run)), 1, tn.where()):
+        return
+    sl = backslice(tn, [probe[0].args[0]])
+    base = [c for c in sl.calls if c.matches(r'(Path|PathBuf)::file_name$|::file_stem$')]
+    for c in sl.calls:          # ... or inside a closure handed to an adaptor on the way (and_then(|p| PathBuf::from(p).file_name()))
+        for a in c.args:
+            l = op_local(a)
+            cp = lib.closure_of_type(tn.local_ty(l)) if l is not None else None
+            cb = lib.body(cp) if cp else None
+            if cb is not None:
+                base += cb.calls(r'(Path|PathBuf)::file_name$|::file_stem$')
+    from_cmd = sl.has_call(r'transform::parse_command$')
+    ctx.check(from_cmd and not base, rule, 'transform::Transform::new|probe-same-program', probe[0].where(),
+              'the probe spawns the first word of the parsed command, as build_command does',
+              'the start-up probe spawns %s: `--transform /nonexistent/dir/cat` passes the probe (a `cat` exists on $PATH), every later launch fails with NotFound, which '
+              'hash_transformed_or_log_err takes for a vanished file: all files are dropped without a warning and the run ends successfully with an empty report; a program given by a path '
+              'that is not on $PATH is rejected instead' % ('the base name of the program (file_name), looked up on $PATH' if base else 'something not derived from the command'))
+    # the silent arm exists and is keyed by NotFound only
+    h = lib.body("hasher::FileHasher::<'_>::hash_transformed_or_log_err")
+    if h is None:
+        ctx.missing(rule, 'hash_transformed_or_log_err')
